@@ -2,7 +2,7 @@
    T_op / Phi_op (Gen/Transition.v) and coefficient arrays E_op / P_op (Gen/Evolution.v). *)
 From Coq Require Import List ZArith Reals Lra Lia Psatz Bool.
 From Coquelicot Require Import Coquelicot.
-From EPG Require Import Scalar State Ops CInst Transition Evolution CoefT RFPulse.
+From EPG Require Import Scalar State Ops CInst Transition Evolution CoefT ListLemmas RFPulse.
 Import ListNotations.
 Local Open Scope R_scope.
 
@@ -142,4 +142,655 @@ Proof.
   replace (- (p + - 180)) with (- - 180 + - p) by ring.
   rewrite <- !rotation_phi_add, <- !mmul_assoc.
   rewrite (mmul_assoc (rotation_alpha (- a))), (mmul_assoc (rotation_phi (- 180))), flip_alpha_neg. reflexivity.
+Qed.
+(* ------------------------------------------------------------------ ordered products *)
+Lemma mprod_fold ms : forall A, fold_left (fun acc m => mmul m acc) ms A = mmul (mprod ms) A.
+Proof.
+  induction ms as [|m t IH]; intros A.
+  - unfold mprod. simpl. now rewrite mmul_id_l.
+  - unfold mprod. simpl. rewrite (IH (mmul m A)), (IH (mmul m mid)), mmul_id_r, <- mmul_assoc. reflexivity.
+Qed.
+
+Lemma mprod_nil : mprod [] = mid. Proof. reflexivity. Qed.
+Lemma mprod_cons m t : mprod (m :: t) = mmul (mprod t) m.
+Proof. unfold mprod at 1. simpl. now rewrite mprod_fold, mmul_id_r. Qed.
+Lemma mprod_app a b : mprod (a ++ b) = mmul (mprod b) (mprod a).
+Proof.
+  induction a as [|m t IH]; simpl.
+  - now rewrite mprod_nil, mmul_id_r.
+  - now rewrite !mprod_cons, IH, mmul_assoc.
+Qed.
+Lemma combine_multi_mprod ms : combine_multi ms = mprod ms.
+Proof. destruct ms as [|h t]; [reflexivity|]. simpl. now rewrite mprod_fold, mprod_cons. Qed.
+
+Lemma act_list_cons o t e x : act_list (o :: t) e x = act_list t e (act o e x).
+Proof. reflexivity. Qed.
+Lemma act_list_app a b e x : act_list (a ++ b) e x = act_list b e (act_list a e x).
+Proof. unfold act_list. now rewrite fold_left_app. Qed.
+
+Lemma act_rot o e x : is_rot o -> act o e x = mv (mat_of o) x.
+Proof. destruct o; simpl; intros H; try reflexivity; contradiction. Qed.
+
+(* a relaxation-free operator list acts as the ordered matrix product *)
+Lemma act_list_mprod ops e x : List.Forall is_rot ops ->
+  act_list ops e x = mv (mprod (map mat_of ops)) x.
+Proof.
+  revert x. induction ops as [|o t IH]; intros x H.
+  - simpl. now rewrite mprod_nil, mv_mid.
+  - inversion H; subst. rewrite act_list_cons, IH by assumption.
+    simpl map. rewrite mprod_cons, mv_mmul, act_rot by assumption. reflexivity.
+Qed.
+
+(* ------------------------------------------------------------------ phase offset on products *)
+Theorem phase_offset_product o (ts : list (R * R)) :
+  mmul (Phi_op o) (mmul (mprod (map (fun t => T_op (fst t) (snd t)) ts)) (Phi_op (- o)))
+  = mprod (map (fun t => T_op (fst t) (snd t + o)) ts).
+Proof.
+  induction ts as [|t r IH].
+  - simpl. rewrite mprod_nil, mmul_id_l. apply rotation_phi_inv_r.
+  - simpl map. rewrite !mprod_cons, <- IH, <- phase_offset_identity.
+    rewrite <- !mmul_assoc. f_equal. f_equal.
+    rewrite (mmul_assoc (Phi_op (- o))). unfold Phi_op. now rewrite rotation_phi_inv_l, mmul_id_l.
+Qed.
+
+(* ------------------------------------------------------------------ constant phase *)
+Lemma T_cp c p s v : cp_sample p s v -> T_op (c * fst v) (snd v) = T_op (c * s) p.
+Proof.
+  intros [Hm [H0|[[Hs Hp]|[Hs [Hp|Hp]]]]]; rewrite Hm.
+  - subst s. rewrite Rabs_R0, Rmult_0_r, !T_op_0. reflexivity.
+  - rewrite Hp, Rabs_pos_eq by lra. reflexivity.
+  - rewrite Hp, Rabs_left by assumption.
+    replace (c * - s) with (- (c * s)) by ring. apply T_flip_pos.
+  - rewrite Hp, Rabs_left by assumption.
+    replace (c * - s) with (- (c * s)) by ring. apply T_flip_neg.
+Qed.
+
+Theorem const_phase_product c p ss vals : Forall2 (cp_sample p) ss vals ->
+  mprod (map (fun v => T_op (c * fst v) (snd v)) vals) = T_op (c * rsum ss) p.
+Proof.
+  induction 1 as [|s v ss vals Hv _ IH].
+  - simpl. now rewrite mprod_nil, Rmult_0_r, T_op_0.
+  - simpl map. rewrite mprod_cons, IH, (T_cp c p s v Hv), T_same_axis.
+    f_equal. simpl. ring.
+Qed.
+(* ------------------------------------------------------------------ numpy.mod and the estimate_* pair *)
+Lemma Int_part_eq r z : IZR z <= r < IZR z + 1 -> Int_part r = z.
+Proof.
+  intros [H1 H2]. destruct (base_Int_part r) as [B1 B2].
+  assert (z < Int_part r + 1)%Z by (apply lt_IZR; rewrite plus_IZR; lra).
+  assert (Int_part r < z + 1)%Z by (apply lt_IZR; rewrite plus_IZR; lra).
+  lia.
+Qed.
+
+Lemma rmod_small x m : 0 < m -> 0 <= x < m -> rmod x m = x.
+Proof.
+  intros Hm [H0 H1]. unfold rmod. rewrite (Int_part_eq (x / m) 0); [simpl; ring|].
+  simpl. split.
+  - apply Rmult_le_pos; [assumption|]. left. now apply Rinv_0_lt_compat.
+  - rewrite Rplus_0_l. apply (Rmult_lt_reg_r m); [assumption|].
+    unfold Rdiv. rewrite Rmult_assoc, Rinv_l by lra. lra.
+Qed.
+
+Lemma rmod_self m : 0 < m -> rmod m m = 0.
+Proof.
+  intros Hm. unfold rmod. replace (m / m) with 1 by (field; lra).
+  rewrite (Int_part_eq 1 1); [simpl; ring|simpl; lra].
+Qed.
+
+Lemma Z_of_M (M : mat3 Cops) : fst (fz (mv M e3)) = fst (fz (row2 M)).
+Proof.
+  unfold mv, dot, e3. cbn [fp fm fz]. change (@kmul Cops) with Cmult; change (@kadd Cops) with Cplus.
+  simpl. ring.
+Qed.
+
+Lemma Z_of_T a p : fst (fz (row2 (T_op a p))) = cos (PI / 180 * a).
+Proof. reflexivity. Qed.
+
+Lemma estimate_alpha_cp p ss vals rf : Forall2 (cp_sample p) ss vals ->
+  estimate_alpha vals rf = estimate_alpha_post (cos (PI / 180 * (rf * 180 * rsum ss))).
+Proof.
+  intros H. unfold estimate_alpha. cbv zeta.
+  rewrite combine_multi_mprod, Z_of_M.
+  change rotation_operator with T_op.
+  rewrite (const_phase_product (rf * 180) p ss vals H), Z_of_T. reflexivity.
+Qed.
+
+Lemma cos_lt_1 x : 0 < x < PI -> -1 < cos x < 1.
+Proof.
+  intros [H0 H1]. pose proof PI_RGT_0 as Hpi. split.
+  - rewrite <- cos_PI. apply cos_decreasing_1; lra.
+  - rewrite <- cos_0. apply cos_decreasing_1; lra.
+Qed.
+
+Lemma estimate_alpha_post_interior t : 0 < t < 180 ->
+  estimate_alpha_post (cos (PI / 180 * t)) = t.
+Proof.
+  intros [H0 H1]. pose proof PI_RGT_0 as Hpi.
+  assert (Hx : 0 < PI / 180 * t < PI).
+  { split; [apply Rmult_lt_0_compat; lra|].
+    replace PI with (PI / 180 * 180) at 2 by field. apply Rmult_lt_compat_l; lra. }
+  pose proof (cos_lt_1 _ Hx) as [Hc0 Hc1].
+  unfold estimate_alpha_post. cbv zeta.
+  rewrite (rmod_small (cos (PI / 180 * t) + 1) 2) by lra.
+  replace (cos (PI / 180 * t) + 1 - 1) with (cos (PI / 180 * t)) by ring.
+  rewrite acos_cos by lra.
+  replace (PI / 180 * t / PI * 180) with t by (field; lra).
+  rewrite rmod_small by lra. ring.
+Qed.
+
+(* DESIGN section 9 item 9: a zero pulse (rf = 0, or an all-zero waveform) is reported as -180 degrees *)
+Lemma estimate_alpha_post_1 : estimate_alpha_post 1 = -180.
+Proof.
+  pose proof PI_RGT_0 as Hpi.
+  unfold estimate_alpha_post. cbv zeta.
+  replace (1 + 1) with 2 by ring. rewrite (rmod_self 2) by lra.
+  replace (0 - 1) with (Ropp 1) by ring. rewrite acos_opp, acos_1.
+  replace ((PI - 0) / PI * 180 + 180) with 360 by (field; lra).
+  rewrite (rmod_self 360) by lra. ring.
+Qed.
+
+Theorem estimate_alpha_zero_rf vals : estimate_alpha vals 0 = -180.
+Proof.
+  unfold estimate_alpha. cbv zeta. rewrite combine_multi_mprod, Z_of_M.
+  assert (E : mprod (map (fun v : R * R => rotation_operator (0 * 180 * fst v) (snd v)) vals) = mid).
+  { induction vals as [|v t IH]; [reflexivity|]. simpl map. rewrite mprod_cons, IH, mmul_id_l.
+    replace (0 * 180 * fst v) with 0 by ring. apply T_op_0. }
+  rewrite E. cbn [mid row2 fz]. change (fst (@k1 Cops)) with 1. apply estimate_alpha_post_1.
+Qed.
+
+(* ---- |sum of a constant-phase waveform| ---- *)
+Lemma polar_cp p s v : cp_sample p s v -> polar v = Cmult (RtoC s) (cis (p * PI / 180)).
+Proof.
+  unfold polar, cis.
+  intros [Hm [H0|[[Hs Hp]|[Hs [Hp|Hp]]]]]; rewrite Hm.
+  - subst s. rewrite Rabs_R0. apply C_eq; simpl; ring.
+  - rewrite Hp, Rabs_pos_eq by lra. apply C_eq; simpl; ring.
+  - rewrite Hp, Rabs_left by assumption.
+    replace ((p + 180) * PI / 180) with (p * PI / 180 + PI) by field.
+    rewrite neg_cos, neg_sin. apply C_eq; simpl; ring.
+  - rewrite Hp, Rabs_left by assumption.
+    replace ((p - 180) * PI / 180) with (p * PI / 180 - PI) by field.
+    rewrite cos_minus, sin_minus, cos_PI, sin_PI. apply C_eq; simpl; ring.
+Qed.
+
+Lemma csum_cp p ss vals : Forall2 (cp_sample p) ss vals ->
+  csum vals = Cmult (RtoC (rsum ss)) (cis (p * PI / 180)).
+Proof.
+  induction 1 as [|s v ss vals Hv _ IH]; unfold csum in *; simpl.
+  - apply C_eq; simpl; ring.
+  - rewrite IH, (polar_cp p s v Hv). apply C_eq; simpl; ring.
+Qed.
+
+Lemma Cmod_cis t : Cmod (cis t) = 1.
+Proof.
+  unfold Cmod, cis. simpl. rewrite !Rmult_1_r.
+  pose proof (sin2_cos2 t) as H. unfold Rsqr in H.
+  replace (cos t * cos t + sin t * sin t) with 1 by lra. apply sqrt_1.
+Qed.
+
+Lemma abs_sum_cp p ss vals : Forall2 (cp_sample p) ss vals -> Cmod (csum vals) = Rabs (rsum ss).
+Proof. intros H. now rewrite (csum_cp p ss vals H), Cmod_mult, Cmod_R, Cmod_cis, Rmult_1_r. Qed.
+
+(* ---- the two estimators are mutual inverses on the constant-phase branch ---- *)
+Theorem estimate_alpha_of_rf p ss vals alpha : Forall2 (cp_sample p) ss vals -> rsum ss <> 0 ->
+  0 < alpha < 180 -> estimate_alpha vals (estimate_rf vals alpha) = alpha.
+Proof.
+  intros H HS Ha. rewrite (estimate_alpha_cp p ss vals _ H).
+  unfold estimate_rf, estimate_rf_const. cbn [ndiv RNum nofZ].
+  rewrite (abs_sum_cp p ss vals H).
+  rewrite <- (estimate_alpha_post_interior alpha Ha) at 2. f_equal.
+  destruct (Rle_dec 0 (rsum ss)) as [Hp|Hn].
+  - rewrite Rabs_pos_eq by assumption. f_equal. field. assumption.
+  - rewrite Rabs_left by lra.
+    replace (PI / 180 * (alpha / 180 / - rsum ss * 180 * rsum ss)) with (- (PI / 180 * alpha)) by (field; lra).
+    apply cos_neg.
+Qed.
+
+Theorem estimate_rf_of_alpha p ss vals rf : Forall2 (cp_sample p) ss vals ->
+  0 < rf * Rabs (rsum ss) < 1 -> estimate_rf vals (estimate_alpha vals rf) = rf.
+Proof.
+  intros H Hr.
+  assert (HS : rsum ss <> 0).
+  { intros E. rewrite E, Rabs_R0 in Hr. lra. }
+  assert (Hab : 0 < Rabs (rsum ss)) by (apply Rabs_pos_lt; assumption).
+  rewrite (estimate_alpha_cp p ss vals _ H).
+  assert (Ec : cos (PI / 180 * (rf * 180 * rsum ss)) = cos (PI / 180 * (180 * (rf * Rabs (rsum ss))))).
+  { destruct (Rle_dec 0 (rsum ss)) as [Hp|Hn].
+    - rewrite Rabs_pos_eq by assumption. f_equal. ring.
+    - rewrite Rabs_left by lra.
+      replace (PI / 180 * (180 * (rf * - rsum ss))) with (- (PI / 180 * (rf * 180 * rsum ss))) by field.
+      now rewrite cos_neg. }
+  rewrite Ec, estimate_alpha_post_interior by lra.
+  unfold estimate_rf, estimate_rf_const. cbn [ndiv RNum nofZ].
+  rewrite (abs_sum_cp p ss vals H). field. lra.
+Qed.
+Notation RPhi := (@PPhi RNum).
+Notation RT := (@PT RNum).
+Notation RE := (@PE RNum).
+Notation RP := (@PP RNum).
+(* ------------------------------------------------------------------ phase offset with relaxation / precession in between *)
+Lemma act_Phi_inv (o : R) e x : act (RPhi o) e (act (RPhi (- o)) e x) = x.
+Proof. simpl. unfold Phi_op. now rewrite <- mv_mmul, rotation_phi_inv_r, mv_mid. Qed.
+Lemma act_Phi_inv' (o : R) e x : act (RPhi (- o)) e (act (RPhi o) e x) = x.
+Proof. simpl. unfold Phi_op. now rewrite <- mv_mmul, rotation_phi_inv_l, mv_mid. Qed.
+
+Lemma Phi_commutes_E (o tau T1 T2 g : R) e x :
+  mv (Phi_op o) (act_coef (E_op tau T1 T2 g) e x) = act_coef (E_op tau T1 T2 g) e (mv (Phi_op o) x).
+Proof.
+  unfold act_coef, E_op, relaxation_operator, Phi_op, rotation_phi. cbn [fst snd].
+  destruct x as [x1 x2 x3], e as [e1 e2 e3].
+  apply triple_eq; cbn [mv sv tadd dot row0 row1 row2 fp fm fz];
+    change (@kmul Cops) with Cmult; change (@kadd Cops) with Cplus; apply C_eq; simpl; ring.
+Qed.
+Lemma Phi_commutes_P (o tau g : R) e x :
+  mv (Phi_op o) (act_coef (P_op tau g) e x) = act_coef (P_op tau g) e (mv (Phi_op o) x).
+Proof.
+  unfold act_coef, P_op, precession_operator, Phi_op, rotation_phi. cbn [fst snd].
+  destruct x as [x1 x2 x3].
+  apply triple_eq; cbn [mv sv tadd dot row0 row1 row2 fp fm fz];
+    change (@kmul Cops) with Cmult; change (@kadd Cops) with Cplus; apply C_eq; simpl; ring.
+Qed.
+
+Lemma conj_op (o : R) (b : pop RNum) e x :
+  act (RPhi o) e (act b e (act (RPhi (- o)) e x)) = act (shift_phase o b) e x.
+Proof.
+  destruct b as [q|a p d|tau T1 T2 g|tau g]; cbn [act shift_phase].
+  - unfold Phi_op. rewrite <- !mv_mmul, !rotation_phi_add. f_equal. f_equal. ring.
+  - now rewrite <- !mv_mmul, <- mmul_assoc, phase_offset_identity.
+  - rewrite Phi_commutes_E. f_equal. apply (act_Phi_inv o e x).
+  - rewrite Phi_commutes_P. f_equal. apply (act_Phi_inv o e x).
+Qed.
+
+Theorem phase_offset_act (o : R) (body : list (pop RNum)) e x :
+  act_list (RPhi (- o) :: body ++ [RPhi o]) e x = act_list (map (shift_phase o) body) e x.
+Proof.
+  rewrite act_list_cons, act_list_app. cbn [act_list fold_left].
+  fold (act_list body e (act (RPhi (- o)) e x)).
+  revert x. induction body as [|b t IH]; intros x.
+  - apply act_Phi_inv.
+  - cbn [map]. rewrite !act_list_cons.
+    rewrite <- (conj_op o b e x).
+    rewrite <- IH. f_equal. f_equal. symmetry. apply act_Phi_inv'.
+Qed.
+(* ------------------------------------------------------------------ structure of make_pulse_sequence (any number type) *)
+Section Struct.
+Variable N : NumOps.
+
+Lemma mps_inv vals dur rf off ops : make_pulse_sequence N vals dur rf off = Some ops ->
+  length vals <> 0%nat /\ existsb (fun v => nltb N (nofZ N 1) (fst v)) vals = false /\
+  exists ds, sample_durations N (length vals) dur = Some ds /\
+             existsb (fun d => nltb N d (nofZ N 0)) ds = false /\
+             ops = wrap_offset N off (pulse_body N vals ds rf).
+Proof.
+  unfold make_pulse_sequence.
+  destruct (Nat.eqb (length vals) 0) eqn:E0; [discriminate|].
+  destruct (existsb (fun v => nltb N (nofZ N 1) (fst v)) vals) eqn:E1; [discriminate|].
+  destruct (sample_durations N (length vals) dur) as [ds|] eqn:E2; [|discriminate].
+  destruct (existsb (fun d => nltb N d (nofZ N 0)) ds) eqn:E3; [discriminate|].
+  intros H. injection H as <-. apply Nat.eqb_neq in E0.
+  split; [assumption|]. split; [reflexivity|]. exists ds. auto.
+Qed.
+
+Lemma mps_intro vals dur rf off ds : length vals <> 0%nat ->
+  existsb (fun v => nltb N (nofZ N 1) (fst v)) vals = false ->
+  sample_durations N (length vals) dur = Some ds ->
+  existsb (fun d => nltb N d (nofZ N 0)) ds = false ->
+  make_pulse_sequence N vals dur rf off = Some (wrap_offset N off (pulse_body N vals ds rf)).
+Proof.
+  intros H0 H1 H2 H3. unfold make_pulse_sequence, sample in *.
+  destruct (Nat.eqb_neq (length vals) 0) as [_ K]. now rewrite (K H0), H1, H2, H3.
+Qed.
+
+Lemma sample_durations_length n dur ds : sample_durations N n dur = Some ds -> length ds = n.
+Proof.
+  destruct dur as [d|l]; simpl.
+  - intros H. injection H as <-. apply repeat_length.
+  - destruct (Nat.eqb (length l) n) eqn:E; [|discriminate]. intros H. injection H as <-. now apply Nat.eqb_eq.
+Qed.
+
+Lemma pulse_body_length vals ds rf : length ds = length vals ->
+  length (pulse_body N vals ds rf) = length vals.
+Proof. intros H. unfold pulse_body. rewrite map_length, combine_length, H. apply Nat.min_id. Qed.
+
+(* the i-th operator is T(180 |v_i| rf, arg v_i, duration = d_i) *)
+Lemma pulse_body_nth vals : forall ds rf i v d,
+  nth_error vals i = Some v -> nth_error ds i = Some d ->
+  nth_error (pulse_body N vals ds rf) i =
+    Some (PT (nmul N (nmul N (nofZ N 180) (fst v)) rf) (snd v) d).
+Proof.
+  induction vals as [|v0 t IH]; intros ds rf i v d Hv Hd; destruct i; simpl in Hv; try discriminate.
+  - destruct ds; simpl in Hd; [discriminate|]. injection Hv as <-. injection Hd as <-. reflexivity.
+  - destruct ds as [|d0 ds]; simpl in Hd; [discriminate|]. unfold pulse_body. simpl.
+    apply (IH ds rf i v d Hv Hd).
+Qed.
+
+Lemma pulse_body_durations vals : forall ds rf, length ds = length vals ->
+  map (pop_duration N) (pulse_body N vals ds rf) = ds.
+Proof.
+  induction vals as [|v t IH]; intros [|d ds] rf H; simpl in H; try discriminate; [reflexivity|].
+  unfold pulse_body. simpl. f_equal. apply IH. now injection H.
+Qed.
+
+(* operator list: exact shape, length and order *)
+Theorem pulse_structure vals dur rf off ops : make_pulse_sequence N vals dur rf off = Some ops ->
+  exists ds, sample_durations N (length vals) dur = Some ds /\ length ds = length vals /\
+    let body := pulse_body N vals ds rf in
+    length body = length vals /\
+    (forall i v d, nth_error vals i = Some v -> nth_error ds i = Some d ->
+       nth_error body i = Some (PT (nmul N (nmul N (nofZ N 180) (fst v)) rf) (snd v) d)) /\
+    ops = match off with
+          | None => body
+          | Some o => if neqb N o (nofZ N 0) then body else PPhi (nopp N o) :: body ++ [PPhi o]
+          end.
+Proof.
+  intros H. apply mps_inv in H. destruct H as (_ & _ & ds & Hd & _ & ->).
+  exists ds. pose proof (sample_durations_length _ _ _ Hd) as L.
+  split; [assumption|]. split; [assumption|]. cbv zeta.
+  split; [now apply pulse_body_length|]. split; [intros; now apply pulse_body_nth|].
+  destruct off; reflexivity.
+Qed.
+End Struct.
+
+(* ------------------------------------------------------------------ durations *)
+Lemma total_duration_sum (ops : list (pop RNum)) :
+  total_duration RNum ops = rsum (map (pop_duration RNum) ops).
+Proof.
+  unfold total_duration. cbn [nofZ nadd RNum].
+  assert (G : forall acc : R, fold_left (fun (a : R) o => a + pop_duration RNum o) ops acc
+                          = acc + rsum (map (pop_duration RNum) ops)).
+  { induction ops as [|o t IH]; intros acc; simpl; [symmetry; apply Rplus_0_r|]. rewrite IH. apply Rplus_assoc. }
+  rewrite G. apply Rplus_0_l.
+Qed.
+
+Lemma rsum_app a b : rsum (a ++ b) = rsum a + rsum b.
+Proof. induction a; simpl; [ring|]. rewrite IHa. ring. Qed.
+
+Lemma rsum_repeat c n : rsum (repeat c n) = INR n * c.
+Proof. induction n; [simpl; ring|]. rewrite S_INR. simpl repeat. simpl rsum. rewrite IHn. ring. Qed.
+
+Lemma wrap_offset_durations off (body : list (pop RNum)) :
+  rsum (map (pop_duration RNum) (wrap_offset RNum off body)) = rsum (map (pop_duration RNum) body).
+Proof.
+  unfold wrap_offset. destruct off as [o|]; [|reflexivity].
+  destruct (neqb RNum o (nofZ RNum 0)); [reflexivity|].
+  simpl. rewrite map_app, rsum_app. simpl. ring.
+Qed.
+
+Definition nominal_duration (n : nat) (dur : dspec RNum) : R :=
+  match dur with DScalar d => d | DList ds => rsum ds end.
+
+Theorem pulse_duration vals dur rf off ops :
+  make_pulse_sequence RNum vals dur rf off = Some ops ->
+  total_duration RNum ops = nominal_duration (length vals) dur.
+Proof.
+  intros H. apply mps_inv in H. destruct H as (Hn & _ & ds & Hd & _ & ->).
+  pose proof (sample_durations_length _ _ _ _ Hd) as L.
+  rewrite total_duration_sum, wrap_offset_durations, pulse_body_durations by assumption.
+  destruct dur as [d|l]; simpl in Hd |- *.
+  - injection Hd as <-. rewrite rsum_repeat, <- INR_IZR_INZ.
+    assert (INR (length vals) <> 0) by (apply not_0_INR; assumption). field. assumption.
+  - revert Hd. destruct (Nat.eqb _ _); intros Hd; [|discriminate]. now injection Hd as <-.
+Qed.
+
+Lemma modify_op_durations T1 T2 g (o : pop RNum) :
+  rsum (map (pop_duration RNum) (modify_op RNum T1 T2 g o)) = pop_duration RNum o.
+Proof.
+  unfold modify_op. destruct (nltb RNum (nofZ RNum 0) (pop_duration RNum o)); [|simpl; ring].
+  destruct T1, T2, g; simpl; ring.
+Qed.
+
+Lemma modify_durations T1 T2 g (ops : list (pop RNum)) :
+  rsum (map (pop_duration RNum) (modify RNum T1 T2 g ops)) = rsum (map (pop_duration RNum) ops).
+Proof.
+  unfold modify. induction ops as [|o t IH]; [reflexivity|].
+  cbn [flat_map map]. rewrite map_app, rsum_app, modify_op_durations, IH. reflexivity.
+Qed.
+
+Theorem rfpulse_duration vals dur rf alpha phi T1 T2 g S ops :
+  rfpulse RNum vals dur rf alpha phi T1 T2 g S = Some ops ->
+  total_duration RNum ops = nominal_duration (length vals) dur.
+Proof.
+  unfold rfpulse. destruct (resolve_rf RNum S rf alpha) as [r|]; [|discriminate].
+  destruct (make_pulse_sequence RNum vals dur r phi) as [seq|] eqn:E; [|discriminate].
+  intros H. injection H as <-. rewrite <- (pulse_duration _ _ _ _ _ E), !total_duration_sum.
+  destruct T1, T2, g; try reflexivity; apply modify_durations.
+Qed.
+
+Theorem encode_phase_duration (ops : list (pop RNum)) D grad gamma x rw :
+  total_duration RNum (encode_phase RNum ops D grad gamma x rw) = total_duration RNum ops.
+Proof.
+  unfold encode_phase. cbv zeta. rewrite !total_duration_sum, map_app, rsum_app, modify_durations.
+  destruct rw; simpl; ring.
+Qed.
+(* ------------------------------------------------------------------ modify() and the Phi pair, phase offset on whole pulses *)
+Lemma nltb_0_0 : nltb RNum (nofZ RNum 0) (nofZ RNum 0) = false.
+Proof. cbn. destruct (Rlt_dec 0 0); [lra|reflexivity]. Qed.
+
+Lemma modify_op_Phi T1 T2 g (p : R) : modify_op RNum T1 T2 g (RPhi p) = [RPhi p].
+Proof. unfold modify_op. cbn [pop_duration]. now rewrite nltb_0_0. Qed.
+
+Lemma modify_app T1 T2 g (a b : list (pop RNum)) :
+  modify RNum T1 T2 g (a ++ b) = modify RNum T1 T2 g a ++ modify RNum T1 T2 g b.
+Proof. apply flat_map_app. Qed.
+
+Lemma modify_single_Phi T1 T2 g (p : R) : modify RNum T1 T2 g [RPhi p] = [RPhi p].
+Proof. unfold modify. cbn [flat_map]. now rewrite modify_op_Phi. Qed.
+
+Lemma modify_wrap T1 T2 g (a b : R) (body : list (pop RNum)) :
+  modify RNum T1 T2 g (RPhi a :: body ++ [RPhi b]) = RPhi a :: modify RNum T1 T2 g body ++ [RPhi b].
+Proof.
+  change (RPhi a :: body ++ [RPhi b]) with ([RPhi a] ++ body ++ [RPhi b]).
+  now rewrite !modify_app, !modify_single_Phi.
+Qed.
+
+Lemma modify_op_shift T1 T2 g (o : R) (b : pop RNum) :
+  modify_op RNum T1 T2 g (shift_phase o b) = map (shift_phase o) (modify_op RNum T1 T2 g b).
+Proof.
+  destruct b as [q|a p d|tau U1 U2 f|tau f]; unfold modify_op; cbn [shift_phase pop_duration];
+    try (rewrite nltb_0_0; reflexivity).
+  destruct (nltb RNum (nofZ RNum 0) d); [|reflexivity]. destruct T1, T2, g; reflexivity.
+Qed.
+
+Lemma modify_shift T1 T2 g (o : R) (body : list (pop RNum)) :
+  modify RNum T1 T2 g (map (shift_phase o) body) = map (shift_phase o) (modify RNum T1 T2 g body).
+Proof.
+  unfold modify. induction body as [|b t IH]; [reflexivity|].
+  cbn [map flat_map]. now rewrite map_app, modify_op_shift, IH.
+Qed.
+
+Lemma wrap_offset_some (o : R) (body : list (pop RNum)) : o <> 0 ->
+  wrap_offset RNum (Some o) body = RPhi (- o) :: body ++ [RPhi o].
+Proof.
+  intros H. unfold wrap_offset. cbn [neqb RNum nofZ nopp].
+  destruct (Req_EM_T o 0); [contradiction|reflexivity].
+Qed.
+
+Definition shift_sample (o : R) (v : R * R) : R * R := (fst v, snd v + o).
+
+Lemma pulse_body_shift (o : R) (vals : list (R * R)) : forall (ds : list R) (rf : R),
+  pulse_body RNum (map (shift_sample o) vals) ds rf = map (shift_phase o) (pulse_body RNum vals ds rf).
+Proof.
+  induction vals as [|v t IH]; intros [|d ds] rf; try reflexivity.
+  unfold pulse_body in *. cbn [map combine]. f_equal. apply IH.
+Qed.
+
+Lemma mps_offset (vals : list (R * R)) dur (r o : R) ops : o <> 0 ->
+  make_pulse_sequence RNum vals dur r (Some o) = Some ops ->
+  exists body, make_pulse_sequence RNum vals dur r None = Some body /\ ops = RPhi (- o) :: body ++ [RPhi o].
+Proof.
+  intros Ho H. apply mps_inv in H. destruct H as (H0 & H1 & ds & H2 & H3 & ->).
+  exists (pulse_body RNum vals ds r). split.
+  - apply (mps_intro RNum vals dur r None ds H0 H1 H2 H3).
+  - now apply wrap_offset_some.
+Qed.
+
+Lemma mps_shift (vals : list (R * R)) dur (r o : R) body :
+  make_pulse_sequence RNum vals dur r None = Some body ->
+  make_pulse_sequence RNum (map (shift_sample o) vals) dur r None = Some (map (shift_phase o) body).
+Proof.
+  intros H. apply mps_inv in H. destruct H as (H0 & H1 & ds & H2 & H3 & ->). cbn [wrap_offset].
+  rewrite <- pulse_body_shift.
+  apply (mps_intro RNum (map (shift_sample o) vals) dur r None ds).
+  - now rewrite map_length.
+  - rewrite <- H1. clear. induction vals as [|v t IH]; [reflexivity|]. cbn [map existsb]. now rewrite IH.
+  - now rewrite map_length.
+  - assumption.
+Qed.
+
+Lemma polar_shift (o : R) v : polar (shift_sample o v) = Cmult (cis (o * PI / 180)) (polar v).
+Proof.
+  unfold polar, shift_sample, cis. cbn [fst snd].
+  replace ((snd v + o) * PI / 180) with (snd v * PI / 180 + o * PI / 180) by field.
+  rewrite cos_plus, sin_plus. apply C_eq; simpl; ring.
+Qed.
+
+(* a phase offset phi = o acts exactly as the pulse whose samples are all multiplied by exp(i o) *)
+Theorem phase_offset_is_sample_rotation (vals : list (R * R)) dur rf alpha (o : R) T1 T2 g S ops : o <> 0 ->
+  rfpulse RNum vals dur rf alpha (Some o) T1 T2 g S = Some ops ->
+  exists ops', rfpulse RNum (map (shift_sample o) vals) dur rf alpha None T1 T2 g S = Some ops' /\
+    (forall e x, act_list ops e x = act_list ops' e x) /\
+    (forall v, polar (shift_sample o v) = Cmult (cis (o * PI / 180)) (polar v)).
+Proof.
+  intros Ho. unfold rfpulse. destruct (resolve_rf RNum S rf alpha) as [r|]; [|discriminate].
+  destruct (make_pulse_sequence RNum vals dur r (Some o)) as [seq|] eqn:E; [|discriminate].
+  intros H. injection H as <-.
+  destruct (mps_offset vals dur r o seq Ho E) as (body & Hb & ->).
+  rewrite (mps_shift vals dur r o body Hb). eexists. split; [reflexivity|]. split; [|apply polar_shift].
+  intros e x.
+  destruct T1, T2, g; rewrite ?modify_wrap, ?modify_shift; apply phase_offset_act.
+Qed.
+
+(* ------------------------------------------------------------------ the pulse is the ordered product *)
+Lemma pulse_body_rot (vals : list (R * R)) : forall ds rf, List.Forall is_rot (pulse_body RNum vals ds rf).
+Proof.
+  induction vals as [|v t IH]; intros [|d ds] rf; try constructor.
+  - exact I.
+  - apply IH.
+Qed.
+
+Lemma mat_of_pulse_body (vals : list (R * R)) : forall (ds : list R) (rf : R), length ds = length vals ->
+  map mat_of (pulse_body RNum vals ds rf) = map (fun v => T_op (180 * fst v * rf) (snd v)) vals.
+Proof.
+  induction vals as [|v t IH]; intros [|d ds] rf H; simpl in H; try discriminate; [reflexivity|].
+  unfold pulse_body in *. cbn [map combine]. f_equal. apply IH. now injection H.
+Qed.
+
+Lemma wrap_offset_rot off (body : list (pop RNum)) : List.Forall is_rot body ->
+  List.Forall is_rot (wrap_offset RNum off body).
+Proof.
+  intros H. unfold wrap_offset. destruct off as [o|]; [|assumption].
+  destruct (neqb RNum o (nofZ RNum 0)); [assumption|].
+  constructor; [exact I|]. apply Forall_app. split; [assumption|]. constructor; [exact I|constructor].
+Qed.
+
+(* without relaxation: the list built by make_pulse_sequence acts as  Phi(o) . T_n ... T_1 . Phi(-o)  *)
+Theorem pulse_is_product (vals : list (R * R)) dur (rf : R) off ops :
+  make_pulse_sequence RNum vals dur rf off = Some ops ->
+  let Ts := map (fun v => T_op (180 * fst v * rf) (snd v)) vals in
+  (forall e x, act_list ops e x = mv (mprod (map mat_of ops)) x) /\
+  mprod (map mat_of ops) =
+    match off with
+    | None => mprod Ts
+    | Some o => if neqb RNum o 0 then mprod Ts else mmul (Phi_op o) (mmul (mprod Ts) (Phi_op (- o)))
+    end.
+Proof.
+  intros H. apply mps_inv in H. destruct H as (_ & _ & ds & Hd & _ & ->).
+  pose proof (sample_durations_length _ _ _ _ Hd) as L. cbv zeta. split.
+  - intros e x. apply act_list_mprod, wrap_offset_rot, pulse_body_rot.
+  - unfold wrap_offset. destruct off as [o|]; [|now rewrite mat_of_pulse_body].
+    cbn [nofZ RNum]. destruct (neqb RNum o 0); [now rewrite mat_of_pulse_body|].
+    cbn [map]. rewrite mprod_cons, map_app, mprod_app. cbn [map]. rewrite mprod_cons, mprod_nil, mmul_id_l.
+    rewrite mat_of_pulse_body by assumption. cbn [mat_of nopp RNum]. now rewrite mmul_assoc.
+Qed.
+
+(* with T1/T2/g: every sample with a positive duration is followed by the evolution over that duration *)
+Lemma act_list_modify T1 T2 g (ops : list (pop RNum)) e x :
+  act_list (modify RNum T1 T2 g ops) e x =
+  fold_left (fun y o => act_list (modify_op RNum T1 T2 g o) e y) ops x.
+Proof.
+  unfold modify. revert x. induction ops as [|o t IH]; intros x; [reflexivity|].
+  cbn [flat_map fold_left]. now rewrite act_list_app, IH.
+Qed.
+
+Lemma modify_op_T (T1 T2 g a p d : R) :
+  modify_op RNum (Some T1) (Some T2) (Some g) (RT a p d) =
+  if Rlt_dec 0 d then [RT a p d; RE d T1 T2 g] else [RT a p d].
+Proof. unfold modify_op. cbn. destruct (Rlt_dec 0 d); reflexivity. Qed.
+
+Lemma modify_op_T_g (g a p d : R) :
+  modify_op RNum None None (Some g) (RT a p d) =
+  if Rlt_dec 0 d then [RT a p d; RP d g] else [RT a p d].
+Proof. unfold modify_op. cbn. destruct (Rlt_dec 0 d); reflexivity. Qed.
+
+(* ------------------------------------------------------------------ constant phase: a single rotation *)
+Theorem const_phase_single_rotation p ss (vals : list (R * R)) dur (rf : R) ops :
+  Forall2 (cp_sample p) ss vals ->
+  make_pulse_sequence RNum vals dur rf None = Some ops ->
+  forall e x, act_list ops e x = mv (T_op (180 * rf * rsum ss) p) x.
+Proof.
+  intros Hcp H e x. destruct (pulse_is_product vals dur rf None ops H) as [Ha Hm].
+  rewrite Ha, Hm. f_equal.
+  rewrite <- (const_phase_product (180 * rf) p ss vals Hcp). f_equal.
+  apply map_ext. intros v. f_equal. ring.
+Qed.
+
+(* ... by the target angle when rf is resolved from alpha *)
+Theorem const_phase_target_angle p ss (vals : list (R * R)) dur (alpha : R) ops :
+  Forall2 (cp_sample p) ss vals -> rsum ss <> 0 ->
+  rfpulse RNum vals dur None (Some alpha) None None None None (Cmod (csum vals)) = Some ops ->
+  forall e x, act_list ops e x =
+     mv (T_op (if Rle_dec 0 (rsum ss) then alpha else - alpha) p) x.
+Proof.
+  intros Hcp HS. unfold rfpulse, resolve_rf.
+  destruct (make_pulse_sequence RNum vals dur _ None) as [seq|] eqn:E; [|discriminate].
+  intros H. injection H as <-. intros e x.
+  rewrite (const_phase_single_rotation p ss vals dur _ seq Hcp E). f_equal. f_equal.
+  unfold estimate_rf_const. cbn [ndiv RNum nofZ]. rewrite (abs_sum_cp p ss vals Hcp).
+  destruct (Rle_dec 0 (rsum ss)).
+  - rewrite Rabs_pos_eq by assumption. field. assumption.
+  - rewrite Rabs_left by lra. field. lra.
+Qed.
+
+(* ------------------------------------------------------------------ encode_phase *)
+Theorem encode_phase_is_modify (N : NumOps) (ops : list (pop N)) D grad gamma x rw :
+  encode_phase N ops D grad gamma x rw =
+  modify N None None (Some (space_to_freq N grad gamma x)) ops ++
+  match rw with None => [] | Some r => [PP (nmul N D r) (nopp N (space_to_freq N grad gamma x))] end.
+Proof. reflexivity. Qed.
+
+(* ------------------------------------------------------------------ link with the state-matrix model (Model/Ops.v) *)
+Definition pw (F : triple Cops -> triple Cops -> triple Cops) (s : sm Cops) : sm Cops :=
+  mkSM (tab (length (st s)) (fun i => F (nth i (equ s) t0) (nth i (st s) t0))) (equ s).
+
+Lemma map_tab {A B} (f : A -> B) (l : list A) d : map f l = tab (length l) (fun i => f (nth i l d)).
+Proof.
+  unfold tab. induction l as [|a t IH]; [reflexivity|].
+  cbn [length seq map nth]. f_equal. rewrite <- seq_shift, map_map. exact IH.
+Qed.
+
+Lemma apply_to_op o s : apply (to_op o) s = pw (act o) s.
+Proof.
+  destruct o as [q|a p d|tau T1 T2 g|tau g]; unfold pw; cbn [to_op apply act apply_matrix].
+  - now rewrite (map_tab _ _ t0).
+  - now rewrite (map_tab _ _ t0).
+  - reflexivity.
+  - unfold act_coef, P_op, precession_operator. cbn [fst snd apply_scalar]. now rewrite (map_tab _ _ t0).
+Qed.
+
+Lemma pw_pw F G s : pw F (pw G s) = pw (fun e x => F e (G e x)) s.
+Proof.
+  unfold pw. cbn [st equ]. rewrite length_tab. f_equal.
+  unfold tab. apply map_ext_in. intros i Hi. apply in_seq in Hi.
+  fold (tab (length (st s)) (fun i0 : nat => G (nth i0 (equ s) t0) (nth i0 (st s) t0))).
+  rewrite nth_tab by lia. reflexivity.
+Qed.
+
+Lemma pw_id s : pw (fun _ x => x) s = s.
+Proof. unfold pw. rewrite <- (map_tab (fun x => x) (st s) t0), map_id. now destruct s. Qed.
+
+Theorem run_act_list ops s : run (map to_op ops) s = pw (act_list ops) s.
+Proof.
+  revert s. induction ops as [|o t IH]; intros s.
+  - simpl. symmetry. apply pw_id.
+  - cbn [map]. unfold run in *. cbn [fold_left]. rewrite IH, apply_to_op, pw_pw. reflexivity.
 Qed.
